@@ -96,3 +96,16 @@ func runCases(file string, timeout time.Duration, f func(string) string) {
 		fmt.Fprintf(w, "%s\t%s\n", c.id, guarded(timeout, func() string { return f(c.text) }))
 	}
 }
+
+func tcObs(text string) string {
+	procs, assumed, env, err := gparser.ParseString(text)
+	if err != nil {
+		return "PARSE-ERR"
+	}
+	env.LogLevels = []process.LogLevel{}
+	err = process.Typecheck(procs, assumed, env)
+	if err != nil {
+		return "REJECT"
+	}
+	return "ACCEPT\t" + strings.Join(process.VerifDumpProgram(procs, assumed, env, true), " ;; ")
+}
